@@ -7,9 +7,19 @@ def read_lines(docs, opt=0):
     return ["R %d %s" % (opt, C.hexs(d)) for d in docs]
 
 
+# protocol lines the harness could not serve because the static helper they call no longer exists in the source
+# (renamed, inlined, new signature): configuration -> count.  Such lines are treated as not run.
+UNSUPPORTED = {}
+
+
 def run_impl(cfg, lines, mode="san", style="unity", prefix=None, nchunks=16, **kw):
     exe = C.harness(style, cfg, mode)
-    return C.run_parallel(exe, lines, nchunks=nchunks, prefix=prefix or [], **kw)
+    outs, crashes = C.run_parallel(exe, lines, nchunks=nchunks, prefix=prefix or [], **kw)
+    for i, o in enumerate(outs):
+        if o == "unsupported":
+            outs[i] = None
+            UNSUPPORTED[cfg] = UNSUPPORTED.get(cfg, 0) + 1
+    return outs, crashes
 
 
 def run_model(cfg, lines, nchunks=16):
